@@ -23,10 +23,10 @@ DEADLINE_MS = 700     # no liveness verdict here: the deadline only bounds how l
 
 # (label, fpcs, fpss, idcs, idss)
 ROLE_CFGS = [
-    ("client", FP, ["none"], ["certC"], ["certS", "certM"]),
-    ("server", ["match"], FP, ["certC", "certM"], ["certS"]),
+    ("client", FP, ["none"], ["certC"], ["certS", "certM", "stolen"]),
+    ("server", ["match"], FP, ["certC", "certM", "stolen"], ["certS"]),
 ]
-FULL_CFGS = [("all", FP, FP, ["certC", "certM"], ["certS", "certM"])]
+FULL_CFGS = [("all", FP, FP, ["certC", "certM", "stolen"], ["certS", "certM", "stolen"])]
 
 
 def _cfg(name):
@@ -88,7 +88,7 @@ def evaluate(outcome, allowed_by_key):
                          dict(base, obs=obs)))
         if fin[e] == "Connected":
             # model-independent reading of the statement
-            if fp_mode[e] == "mismatch" or (fp_mode[e] == "match" and peer_id[e] == "certM"):
+            if fp_mode[e] == "mismatch" or (fp_mode[e] == "match" and peer_id[e] in ("certM", "stolen")):
                 rule = "ServerAuthenticatesClient" if e == "S" else "ClientAuthenticatesServer"
                 divs.append(({"sub": "dtls", "rule": rule, "role": role_name[e], "fp": fp_mode[e], "by": "direct"},
                              dict(base, obs=obs, note="Connected although the peer cannot hold the expected certificate")))
@@ -171,7 +171,7 @@ def run(tier):
                 server_gap_ids.add(o["id"])
         if "panic" not in o:
             unfired += sum(1 for op in o["ops"] if not op["fired"])
-            if any(op["fired"] for op in o["ops"]) or o["scenario"]["cfg"]["idS"] == "certM" or o["scenario"]["cfg"]["idC"] == "certM" \
+            if any(op["fired"] for op in o["ops"]) or o["scenario"]["cfg"]["idS"] != "certS" or o["scenario"]["cfg"]["idC"] != "certC" \
                     or "mismatch" in (o["scenario"]["cfg"]["fpC"], o["scenario"]["cfg"]["fpS"]):
                 nontrivial.add(o["id"])
 
@@ -247,7 +247,7 @@ def selftest():
     for dev in (["ServerSkipsClientAuth"],):
         path = _cfg("selftest")
         dc.write_mc_cfg(path, spec="Spec", deviations=dev, adv_kinds=ADV, adv_budget=1, max_ord=1, fpcs=FP, fpss=FP,
-                        idcs=["certC", "certM"], idss=["certS", "certM"], deadline=True, invariants=["Auth"])
+                        idcs=["certC", "certM", "stolen"], idss=["certS", "certM", "stolen"], deadline=True, invariants=["Auth"])
         res = vlib.tlc("MC_DtlsHandshake", os.path.basename(path), workers=6, timeout=900, tag="c02_selftest")
         os.remove(path)
         hit = any("Auth" in e for e in res["errors"])
